@@ -89,6 +89,8 @@ fn program_case(rng: &mut Rng) -> Case {
     st.w[PC] = 0x1000 + (rng.u16() % 0x6000);
     if rng.bool() {
         st.w[IR] = 0x8000 | (st.w[IR] & 0xFF);
+    } else if rng.chance(1, 4) {
+        st.w[IR] = 0xFF00 | (st.w[IR] & 0xFF);
     }
     if rng.chance(2, 3) {
         st.w[SP] = 0xA000 + (rng.u16() & 0x0FFF);
@@ -141,6 +143,9 @@ fn matrix_cases(rng: &mut Rng) -> Vec<Case> {
                         st.w[PC] = 0x1000 + (rng.u16() % 0x6000);
                         if rng.bool() {
                             st.w[IR] = 0x8000 | (st.w[IR] & 0xFF);
+                        } else if rng.chance(1, 3) {
+                            // the vector table at the very top of memory: with bus byte 0xFF the entry is 0xFFFF/0x0000
+                            st.w[IR] = 0xFF00 | (st.w[IR] & 0xFF);
                         }
                         st.ff = ff;
                         st.ap = ap;
